@@ -74,3 +74,270 @@ Proof.
   exists (K - 2 * (2147483648 * pos)), 1. split; [lia|]. split; [lia|]. rewrite X. change (iz (2 ^ 1)) with 2%Q. push_iz. field.
 Qed.
 End Rounded.
+
+(* ------------------------------------------------------------------------------------------------------------------------
+   C02, rounding layer.  move_dist_t3 divides by 6, which is not exact in binary: the rounded computation carries an error.  For
+   every rounding operator that fixes 103-bit numbers and has relative error at most 2^-102, the error that reaches round() is
+   at most 1/4 on the firmware-valid domain, the exact total is an integer, so round() returns that integer and the rounded
+   computation equals the exact one.  The snap test |rate_effective - rate| < 0.01 takes the same branch in both (the exact
+   difference is a multiple of 1/6, the rounded one is within 2^-64 of it). *)
+Definition near (x y e : Q) : Prop := (Qabs (x - y) <= e)%Q.
+
+Lemma near_refl x y : (x == y)%Q -> near x y 0.
+Proof. intros E. unfold near. rewrite E. setoid_replace (y - y)%Q with 0%Q by ring. cbn. lra. Qed.
+Lemma near_weaken x y e e' : near x y e -> (e <= e')%Q -> near x y e'.
+Proof. unfold near. intros. lra. Qed.
+Lemma near_add a a' b b' ea eb : near a a' ea -> near b b' eb -> near (a + b) (a' + b') (ea + eb).
+Proof.
+  unfold near. intros Ha Hb. setoid_replace (a + b - (a' + b'))%Q with ((a - a') + (b - b'))%Q by ring.
+  pose proof (Qabs_triangle (a - a') (b - b')). lra.
+Qed.
+Lemma near_sub a a' b b' ea eb : near a a' ea -> near b b' eb -> near (a - b) (a' - b') (ea + eb).
+Proof.
+  unfold near. intros Ha Hb. setoid_replace (a - b - (a' - b'))%Q with ((a - a') + - (b - b'))%Q by ring.
+  pose proof (Qabs_triangle (a - a') (- (b - b'))). rewrite Qabs_opp in H. lra.
+Qed.
+Lemma near_mul_int a a' e (t m : Z) : near a a' e -> 0 <= t <= m -> near (a * iz t) (a' * iz t) (e * iz m).
+Proof.
+  unfold near. intros Ha Ht. setoid_replace (a * iz t - a' * iz t)%Q with ((a - a') * iz t)%Q by ring.
+  rewrite Qabs_Qmult. assert (T0 : (0 <= iz t)%Q) by (unfold iz; rewrite <- (Zle_Qle 0); lia).
+  rewrite (Qabs_pos (iz t) T0). assert (Tm : (iz t <= iz m)%Q) by (unfold iz; rewrite <- Zle_Qle; lia).
+  pose proof (Qabs_nonneg (a - a')). 
+  apply Qle_trans with (Qabs (a - a') * iz m)%Q.
+  - rewrite !(Qmult_comm (Qabs (a - a'))). apply Qmult_le_compat_r; assumption.
+  - apply Qmult_le_compat_r; lra.
+Qed.
+
+Section Rounded3.
+Variable rnd : Q -> Q.
+Hypothesis rnd_comp : forall x y, (x == y)%Q -> (rnd x == rnd y)%Q.
+Hypothesis rnd_exact : forall x, rep103 x -> (rnd x == x)%Q.
+Hypothesis rnd_err : forall x, (Qabs (rnd x - x) <= eps103 * Qabs x)%Q.
+
+Lemma rnd_id3 x y : (x == y)%Q -> rep103 y -> (rnd x == y)%Q.
+Proof. intros E R. rewrite (rnd_comp x y E). apply rnd_exact, R. Qed.
+
+(* rounding a value that is within e of y, |y| <= B, e <= 1: the result is within e + eps (B + 1) of y *)
+Lemma rnd_near x y e B : near x y e -> (Qabs y <= B)%Q -> (e <= 1)%Q -> near (rnd x) y (e + eps103 * (B + 1)).
+Proof.
+  unfold near. intros Hx Hy He. pose proof (rnd_err x) as R.
+  setoid_replace (rnd x - y)%Q with ((rnd x - x) + (x - y))%Q by ring.
+  pose proof (Qabs_triangle (rnd x - x) (x - y)) as T.
+  assert (Ax : (Qabs x <= B + 1)%Q).
+  { setoid_replace x with ((x - y) + y)%Q by ring. pose proof (Qabs_triangle (x - y) y). lra. }
+  assert (E0 : (0 <= eps103)%Q) by (unfold eps103; discriminate).
+  assert ((eps103 * Qabs x <= eps103 * (B + 1))%Q) by (rewrite !(Qmult_comm eps103); apply Qmult_le_compat_r; assumption).
+  lra.
+Qed.
+
+Lemma abs_mul_le a b A B : Z.abs a <= A -> Z.abs b <= B -> Z.abs (a * b) <= A * B.
+Proof. intros Ha Hb. rewrite Z.abs_mul. apply Z.mul_le_mono_nonneg; lia. Qed.
+
+Lemma lower_abs a x : (a <= x \/ a <= - x)%Q -> (a <= Qabs x)%Q.
+Proof. intros [H|H]; [eapply Qle_trans; [exact H|apply Qle_Qabs]|]. rewrite <- Qabs_opp. eapply Qle_trans; [exact H|apply Qle_Qabs]. Qed.
+
+Lemma Qround_he_near x n : (Qabs (x - iz n) <= 1 # 4)%Q -> Qround_he x = n.
+Proof.
+  intros H. apply Qabs_Qle_condition in H. destruct H as [H1 H2].
+  unfold Qround_he. assert (F : Qfloor x = n \/ Qfloor x = n - 1).
+  { pose proof (Qfloor_le x) as A. pose proof (Qlt_floor x) as B. rewrite inject_Z_plus in B. change (inject_Z 1) with 1%Q in B. unfold iz in *.
+    assert (C1 : (inject_Z (Qfloor x) < inject_Z (n + 1))%Q) by (rewrite inject_Z_plus; change (inject_Z 1) with 1%Q; lra).
+    rewrite <- Zlt_Qlt in C1.
+    assert (C2 : (inject_Z n < inject_Z (Qfloor x + 2))%Q) by (rewrite inject_Z_plus; change (inject_Z 2) with 2%Q; lra).
+    rewrite <- Zlt_Qlt in C2. lia. }
+  destruct F as [F|F]; rewrite F.
+  - assert (C : (x - inject_Z n ?= 1 # 2)%Q = Lt) by (apply (proj1 (Qlt_alt _ _)); unfold iz in *; lra). rewrite C. reflexivity.
+  - pose proof (Qlt_floor x) as B. rewrite F in B. replace (n - 1 + 1) with n in B by lia. unfold iz in *.
+    assert (E : inject_Z (n - 1) = (inject_Z n + inject_Z (-1))%Q) by (rewrite <- inject_Z_plus; f_equal).
+    rewrite E. change (inject_Z (-1)) with (-1 # 1)%Q.
+    assert (C : (x - (inject_Z n + (-1 # 1)) ?= 1 # 2)%Q = Gt) by (apply (proj1 (Qgt_alt _ _)); lra).
+    rewrite C. lia.
+Qed.
+
+(* exact side: the unrounded total is an integer (Proofs/EbbCalcProofs.v, inside move_dist_t3_exact) *)
+Lemma t3_total_int (T : nat) rate accel jerk c :
+  let h := Z.quot accel 2 in let j6 := Z.quot jerk 6 in let t := Z.of_nat T in
+  let re0 := (iz rate + iz accel / 2 - iz h + iz j6 - iz jerk / 6)%Q in
+  (iz c + re0 * iz t + iz accel * iz t * iz t / 2 + iz jerk * iz t * iz t * iz t / 6
+     == iz (c + t * (rate - h + j6) + accel * triN T + jerk * tetN T))%Q.
+Proof.
+  intros h j6 t re0. subst re0.
+  pose proof (iz_tri T) as TR. pose proof (iz_tet T) as TE. fold t in TR, TE.
+  unfold iz in TR, TE. push_iz. rewrite <- TR, <- TE. field.
+Qed.
+
+Theorem move_dist_t3_rounding (T : nat) rate accel jerk accum : (1 <= T)%nat ->
+  Z.abs rate <= 2 ^ 33 -> Z.abs accel <= 2 ^ 32 -> Z.abs jerk <= 2 ^ 32 -> Z.of_nat T <= 2 ^ 32 -> Z.abs jerk * Z.of_nat T <= 2 ^ 33 ->
+  match accum with Some c => 0 <= c < 2 ^ 31 | None => True end ->
+  move_dist_t3_r rnd (Z.of_nat T) rate accel jerk accum = move_dist_t3 (Z.of_nat T) rate accel jerk accum.
+Proof.
+  intros HT Hr Ha Hj Ht Hjt Hc. unfold move_dist_t3_r, move_dist_t3. destruct (Z.of_nat T =? 0) eqn:E0; [lia|]. clear E0. cbv zeta.
+  set (t := Z.of_nat T) in *. set (h := Z.quot accel 2). set (j6 := Z.quot jerk 6).
+  set (c := match accum with Some c => c | None => clear_t3 rate accel jerk end).
+  assert (Hc' : 0 <= c < 2 ^ 31).
+  { unfold c. destruct accum; [exact Hc|]. unfold clear_t3. cbv zeta.
+    repeat match goal with |- context [if ?b then _ else _] => destruct b end; lia. }
+  assert (Hh : Z.abs (accel - 2 * h) <= 1) by (unfold h; pose proof (Z.quot_rem' accel 2); pose proof (Z.rem_bound_abs accel 2 ltac:(lia)); lia).
+  assert (Hj6 : Z.abs (jerk - 6 * j6) <= 5) by (unfold j6; pose proof (Z.quot_rem' jerk 6); pose proof (Z.rem_bound_abs jerk 6 ltac:(lia)); lia).
+  assert (P33 : 2 ^ 33 = 8589934592) by reflexivity. assert (P32 : 2 ^ 32 = 4294967296) by reflexivity. assert (P31 : 2 ^ 31 = 2147483648) by reflexivity.
+  rewrite P33, P32, P31 in *.
+  assert (P103 : 2 ^ 103 = 10141204801825835211973625643008) by reflexivity.
+  (* exact prefix *)
+  assert (E1 : (rnd (iz accel / 2) == iz accel / 2)%Q) by (apply rnd_id3; [reflexivity|apply rep_half; lia]).
+  assert (E2 : (rnd (iz rate + rnd (iz accel / 2)) == iz (2 * rate + accel) / 2)%Q) by (apply rnd_id3; [rewrite E1; push_iz; field|apply rep_half; lia]).
+  assert (E3 : (rnd (rnd (iz rate + rnd (iz accel / 2)) - iz h) == iz (2 * rate + accel - 2 * h) / 2)%Q) by (apply rnd_id3; [rewrite E2; push_iz; field|apply rep_half; lia]).
+  assert (E4 : (rnd (rnd (rnd (iz rate + rnd (iz accel / 2)) - iz h) + iz j6) == iz (2 * rate + accel - 2 * h + 2 * j6) / 2)%Q).
+  { apply rnd_id3; [rewrite E3; push_iz; field|apply rep_half; lia]. }
+  set (t4 := rnd (rnd (rnd (iz rate + rnd (iz accel / 2)) - iz h) + iz j6)) in *.
+  set (X4 := (iz (2 * rate + accel - 2 * h + 2 * j6) / 2)%Q) in *.
+  set (J := (iz jerk / 6)%Q).
+  set (Xre := (iz rate + iz accel / 2 - iz h + iz j6 - J)%Q).
+  assert (EX : (Xre == X4 - J)%Q) by (unfold Xre, X4, J; push_iz; field).
+  set (tot := c + t * (rate - h + j6) + accel * triN T + jerk * tetN T).
+  set (R6 := 3 * (2 * rate + accel - 2 * h + 2 * j6) - jerk).
+  set (m := 3 * (accel - 2 * h) + (6 * j6 - jerk)).
+  assert (XreR : (Xre == iz R6 / 6)%Q) by (unfold Xre, J, R6; push_iz; field).
+  assert (Dm : (Xre - iz rate == iz m / 6)%Q) by (unfold Xre, J, m; push_iz; field).
+  assert (Hm : Z.abs m <= 8) by (unfold m; lia).
+  assert (HR6 : Z.abs R6 <= 2 ^ 37) by (unfold R6; change (2 ^ 37) with 137438953472; lia).
+  change (2 ^ 37) with 137438953472 in HR6.
+  (* magnitudes from integer bounds *)
+  assert (AB : forall k d B, 0 < d -> Z.abs k <= B * d -> (Qabs (iz k / iz d) <= iz B)%Q).
+  { intros k d B Hd Hk. apply Qabs_Qle_condition. unfold iz.
+    assert (D0 : (0 < inject_Z d)%Q) by (rewrite <- (Zlt_Qlt 0); lia).
+    split.
+    - apply Qle_shift_div_l; [exact D0|]. rewrite <- inject_Z_opp, <- inject_Z_mult, <- Zle_Qle. lia.
+    - apply Qle_shift_div_r; [exact D0|]. rewrite <- inject_Z_mult, <- Zle_Qle. lia. }
+  assert (QC : forall a b : Q, (Qnum a * QDen b <=? Qnum b * QDen a) = true -> (a <= b)%Q) by (intros a b H; unfold Qle; apply Z.leb_le, H).
+  (* t5 and the effective rate *)
+  assert (N5 : near (rnd J) J (eps103 * iz (2 ^ 31))).
+  { eapply near_weaken; [apply (rnd_near J J 0 (iz (2 ^ 30)))|].
+    - apply near_refl; reflexivity.
+    - unfold J. change (6%Q) with (iz 6). apply AB; [lia|]. change (2 ^ 30) with 1073741824. lia.
+    - discriminate.
+    - apply QC. vm_compute. reflexivity. }
+  assert (N6 : near (t4 - rnd J) Xre (eps103 * iz (2 ^ 31))).
+  { unfold near in *. rewrite E4, EX. setoid_replace (X4 - rnd J - (X4 - J))%Q with (- (rnd J - J))%Q by ring. rewrite Qabs_opp. exact N5. }
+  assert (MXre : (Qabs Xre <= iz (2 ^ 35))%Q).
+  { rewrite XreR. change (6%Q) with (iz 6). apply AB; [lia|]. change (2 ^ 35) with 34359738368. lia. }
+  assert (Nre0 : near (rnd (t4 - rnd J)) Xre (eps103 * iz (2 ^ 37))).
+  { eapply near_weaken; [apply (rnd_near _ _ _ _ N6 MXre)|]; apply QC; vm_compute; reflexivity. }
+  set (re0 := rnd (t4 - rnd J)) in *.
+  (* the snap test *)
+  assert (Nd0 : near (re0 - iz rate) (iz m / 6) (eps103 * iz (2 ^ 37))).
+  { unfold near in *. rewrite <- Dm. setoid_replace (re0 - iz rate - (Xre - iz rate))%Q with (re0 - Xre)%Q by ring. exact Nre0. }
+  assert (Mm : (Qabs (iz m / 6) <= iz 2)%Q) by (change (6%Q) with (iz 6); apply AB; lia).
+  assert (Nd : near (rnd (re0 - iz rate)) (iz m / 6) (eps103 * iz (2 ^ 38))).
+  { eapply near_weaken; [apply (rnd_near _ _ _ _ Nd0 Mm)|]; apply QC; vm_compute; reflexivity. }
+  set (d := rnd (re0 - iz rate)) in *.
+  assert (Snap : Qltb (Qabs d) c001 = Qltb (Qabs (Xre - iz rate)) (1 # 100)).
+  { unfold near in Nd. apply Qabs_Qle_condition in Nd. destruct Nd as [Nd1 Nd2].
+    assert (Ee : (eps103 * iz (2 ^ 38) == 1 # (2 ^ 64))%Q) by (vm_compute; reflexivity). rewrite Ee in Nd1, Nd2.
+    destruct (Z.eq_dec m 0) as [M0|M0].
+    - assert (Z1 : (iz m / 6 == 0)%Q) by (rewrite M0; reflexivity). rewrite Z1 in Nd1, Nd2.
+      assert (L1 : Qltb (Qabs d) c001 = true).
+      { apply Qltb_iff. apply Qabs_Qlt_condition. unfold c001. split; [apply Qlt_le_trans with (- (1 # 2 ^ 64))%Q|apply Qle_lt_trans with (1 # 2 ^ 64)%Q]; try lra; vm_compute; reflexivity. }
+      assert (L2 : Qltb (Qabs (Xre - iz rate)) (1 # 100) = true).
+      { apply Qltb_iff. rewrite Dm, Z1. vm_compute. reflexivity. }
+      rewrite L1, L2. reflexivity.
+    - assert (Big : (iz m / 6 <= - (1 # 6) \/ 1 # 6 <= iz m / 6)%Q).
+      { destruct (Z_lt_ge_dec m 0); [left|right]; unfold iz.
+        - apply Qle_shift_div_r; [reflexivity|]. assert (inject_Z m <= inject_Z (-1))%Q by (rewrite <- Zle_Qle; lia). change (inject_Z (-1)) with (-1 # 1)%Q in *. lra.
+        - apply Qle_shift_div_l; [reflexivity|]. assert (inject_Z 1 <= inject_Z m)%Q by (rewrite <- Zle_Qle; lia). change (inject_Z 1) with 1%Q in *. lra. }
+      assert (L1 : Qltb (Qabs d) c001 = false).
+      { apply Qltb_false. unfold c001. assert (C1 : (5764607523034235 # 2 ^ 59 <= (1 # 6) - (1 # 2 ^ 64))%Q) by (vm_compute; discriminate).
+        apply lower_abs. destruct Big as [B|B]; [right|left]; lra. }
+      assert (L2 : Qltb (Qabs (Xre - iz rate)) (1 # 100) = false).
+      { apply Qltb_false. rewrite Dm. apply lower_abs. destruct Big as [B|B]; [right|left]; lra. }
+      rewrite L1, L2. reflexivity. }
+  rewrite Snap.
+  assert (SN : ((if Qltb (Qabs (Xre - iz rate)) (1 # 100) then iz rate else Xre) == Xre)%Q) by exact (snap_exact rate accel jerk).
+  set (sn := Qltb (Qabs (Xre - iz rate)) (1 # 100)) in *.
+  set (rex := if sn then iz rate else Xre) in *.
+  set (rer := if sn then iz rate else re0).
+  assert (Nre : near rer Xre (eps103 * iz (2 ^ 37))).
+  { unfold rer. destruct sn eqn:Esn; [|exact Nre0]. apply near_weaken with 0%Q; [apply near_refl; unfold rex in SN; exact SN|discriminate]. }
+  (* the exact total is the integer tot *)
+  assert (TI : (iz c + Xre * iz t + iz accel * iz t * iz t / 2 + iz jerk * iz t * iz t * iz t / 6 == iz tot)%Q) by exact (t3_total_int T rate accel jerk c).
+  assert (EQx : (iz c + rex * iz t + iz accel * iz t * iz t / 2 + iz jerk * iz t * iz t * iz t / 6 == iz tot)%Q) by (rewrite SN; exact TI).
+  rewrite (Qround_he_iz _ _ EQx).
+  (* bounds on the integer ingredients *)
+  assert (Ht0 : 1 <= t) by (unfold t; lia).
+  assert (At : Z.abs t <= 4294967296) by lia.
+  assert (Bat : Z.abs (accel * t) <= 4294967296 * 4294967296) by (apply abs_mul_le; assumption).
+  assert (Batt : Z.abs (accel * t * t) <= 79228162514264337593543950336) by (change 79228162514264337593543950336 with (4294967296 * 4294967296 * 4294967296); apply abs_mul_le; assumption).
+  assert (Bjt : Z.abs (jerk * t) <= 8589934592) by (rewrite Z.abs_mul, (Z.abs_eq t) by lia; exact Hjt).
+  assert (Bjtt : Z.abs (jerk * t * t) <= 8589934592 * 4294967296) by (apply abs_mul_le; assumption).
+  assert (Bjttt : Z.abs (jerk * t * t * t) <= 158456325028528675187087900672) by (change 158456325028528675187087900672 with (8589934592 * 4294967296 * 4294967296); apply abs_mul_le; assumption).
+  assert (BRt : Z.abs (R6 * t) <= 590295810358705651712) by (change 590295810358705651712 with (137438953472 * 4294967296); apply abs_mul_le; assumption).
+  clear At.
+  (* u1 = rnd (rer * t) *)
+  assert (N7 : near (rer * iz t) (Xre * iz t) (eps103 * iz (2 ^ 37) * iz 4294967296)) by (apply near_mul_int; [exact Nre|lia]).
+  assert (M7 : (Qabs (Xre * iz t) <= iz (2 ^ 67))%Q).
+  { rewrite XreR. setoid_replace (iz R6 / 6 * iz t)%Q with (iz (R6 * t) / iz 6)%Q by (push_iz; field). apply AB; [lia|]. change (2 ^ 67) with 147573952589676412928. clear - BRt. lia. }
+  assert (N8 : near (rnd (rer * iz t)) (Xre * iz t) (eps103 * iz (2 ^ 70))).
+  { eapply near_weaken; [apply (rnd_near _ _ _ _ N7 M7)|]; apply QC; vm_compute; reflexivity. }
+  set (u1 := rnd (rer * iz t)) in *.
+  (* u2 = rnd (c + u1) *)
+  assert (N9 : near (iz c + u1) (iz c + Xre * iz t) (eps103 * iz (2 ^ 70))).
+  { unfold near in *. setoid_replace (iz c + u1 - (iz c + Xre * iz t))%Q with (u1 - Xre * iz t)%Q by ring. exact N8. }
+  assert (M9 : (Qabs (iz c + Xre * iz t) <= iz (2 ^ 68))%Q).
+  { rewrite XreR. setoid_replace (iz c + iz R6 / 6 * iz t)%Q with (iz (6 * c + R6 * t) / iz 6)%Q by (push_iz; field). apply AB; [lia|]. change (2 ^ 68) with 295147905179352825856. clear - BRt Hc'. lia. }
+  assert (N10 : near (rnd (iz c + u1)) (iz c + Xre * iz t) (eps103 * iz (2 ^ 71))).
+  { eapply near_weaken; [apply (rnd_near _ _ _ _ N9 M9)|]; apply QC; vm_compute; reflexivity. }
+  set (u2 := rnd (iz c + u1)) in *.
+  (* v3 exact *)
+  assert (V1 : (rnd (iz accel * iz t) == iz (accel * t))%Q) by (apply rnd_id3; [push_iz; reflexivity|apply rep_int; clear - Bat P103; lia]).
+  assert (V2 : (rnd (rnd (iz accel * iz t) * iz t) == iz (accel * t * t))%Q) by (apply rnd_id3; [rewrite V1; push_iz; reflexivity|apply rep_int; clear - Batt P103; lia]).
+  assert (V3 : (rnd (rnd (rnd (iz accel * iz t) * iz t) / 2) == iz (accel * t * t) / 2)%Q) by (apply rnd_id3; [rewrite V2; reflexivity|apply rep_half; clear - Batt P103; lia]).
+  set (v3 := rnd (rnd (rnd (iz accel * iz t) * iz t) / 2)) in *.
+  (* u3 = rnd (u2 + v3) *)
+  set (S3 := (iz c + Xre * iz t + iz accel * iz t * iz t / 2)%Q).
+  assert (N11 : near (u2 + v3) S3 (eps103 * iz (2 ^ 71))).
+  { unfold near in *. rewrite V3. unfold S3. setoid_replace (u2 + iz (accel * t * t) / 2 - (iz c + Xre * iz t + iz accel * iz t * iz t / 2))%Q with (u2 - (iz c + Xre * iz t))%Q by (push_iz; field). exact N10. }
+  assert (M11 : (Qabs S3 <= iz (2 ^ 96))%Q).
+  { unfold S3. rewrite XreR. setoid_replace (iz c + iz R6 / 6 * iz t + iz accel * iz t * iz t / 2)%Q with (iz (6 * c + R6 * t + 3 * (accel * t * t)) / iz 6)%Q by (push_iz; field).
+    apply AB; [lia|]. change (2 ^ 96) with 79228162514264337593543950336. clear - BRt Hc' Batt. lia. }
+  assert (N12 : near (rnd (u2 + v3)) S3 (eps103 * iz (2 ^ 97))).
+  { eapply near_weaken; [apply (rnd_near _ _ _ _ N11 M11)|]; apply QC; vm_compute; reflexivity. }
+  set (u3 := rnd (u2 + v3)) in *.
+  (* w4 *)
+  assert (W1 : (rnd (iz jerk * iz t) == iz (jerk * t))%Q) by (apply rnd_id3; [push_iz; reflexivity|apply rep_int; clear - Bjt P103; lia]).
+  assert (W2 : (rnd (rnd (iz jerk * iz t) * iz t) == iz (jerk * t * t))%Q).
+  { apply rnd_id3; [rewrite W1; push_iz; reflexivity|apply rep_int; clear - Bjtt P103; lia]. }
+  assert (W3 : (rnd (rnd (rnd (iz jerk * iz t) * iz t) * iz t) == iz (jerk * t * t * t))%Q) by (apply rnd_id3; [rewrite W2; push_iz; reflexivity|apply rep_int; clear - Bjttt P103; lia]).
+  set (w3 := rnd (rnd (rnd (iz jerk * iz t) * iz t) * iz t)) in *.
+  set (Wx := (iz jerk * iz t * iz t * iz t / 6)%Q).
+  assert (N13 : near (w3 / 6) Wx 0) by (apply near_refl; rewrite W3; unfold Wx; push_iz; field).
+  assert (M13 : (Qabs Wx <= iz (2 ^ 95))%Q).
+  { unfold Wx. setoid_replace (iz jerk * iz t * iz t * iz t / 6)%Q with (iz (jerk * t * t * t) / iz 6)%Q by (push_iz; field). apply AB; [lia|]. change (2 ^ 95) with 39614081257132168796771975168. clear - Bjttt. lia. }
+  assert (N14 : near (rnd (w3 / 6)) Wx (eps103 * iz (2 ^ 96))).
+  { eapply near_weaken; [apply (rnd_near _ _ _ _ N13 M13)|]; [discriminate|]; apply QC; vm_compute; reflexivity. }
+  set (w4 := rnd (w3 / 6)) in *.
+  (* af *)
+  assert (N15 : near (u3 + w4) (iz tot) (eps103 * iz (2 ^ 97) + eps103 * iz (2 ^ 96))).
+  { unfold near. rewrite <- TI. fold S3. fold Wx. apply near_add; assumption. }
+  assert (Mtot : (Qabs (iz tot) <= iz (2 ^ 97))%Q).
+  { rewrite <- TI. fold S3. fold Wx. pose proof (Qabs_triangle S3 Wx). apply Qle_trans with (iz (2 ^ 96) + iz (2 ^ 95))%Q; [lra|]. apply QC. vm_compute. reflexivity. }
+  assert (N16 : near (rnd (u3 + w4)) (iz tot) (1 # 4)).
+  { eapply near_weaken; [apply (rnd_near _ _ _ _ N15 Mtot)|]; apply QC; vm_compute; reflexivity. }
+  rewrite (Qround_he_near _ _ N16).
+  (* the tails agree: everything is an integer below 2^103 *)
+  assert (Btot : Z.abs tot <= 2 ^ 97).
+  { apply Qabs_Qle_condition in Mtot. destruct Mtot as [A1 A2]. unfold iz in A1, A2. rewrite <- inject_Z_opp in A1. rewrite <- Zle_Qle in A1, A2. clear - A1 A2. lia. }
+  change (2 ^ 97) with 158456325028528675187087900672 in Btot.
+  assert (Ew : (rnd (iz tot / iz 2147483648) == iz tot / iz 2147483648)%Q).
+  { apply rnd_id3; [reflexivity|]. exists tot, 31. split; [lia|]. split; [clear - Btot P103; lia|reflexivity]. }
+  rewrite (Qfloor_comp _ _ Ew). set (pos := Qfloor (iz tot / iz 2147483648)).
+  f_equal. apply Qtrunc_comp.
+  assert (Hpos : Z.abs pos <= 2 ^ 67).
+  { unfold pos. rewrite Qfloor_iz_div by lia. change (2 ^ 67) with 147573952589676412928.
+    pose proof (Z.div_mod tot 2147483648 ltac:(lia)) as DM. pose proof (Z.mod_pos_bound tot 2147483648 ltac:(lia)) as MB. clear - DM MB Btot. lia. }
+  change (2 ^ 67) with 147573952589676412928 in Hpos.
+  assert (E11 : (rnd (iz 2147483648 * iz pos) == iz (2147483648 * pos))%Q) by (apply rnd_id3; [push_iz; reflexivity|apply rep_int; clear - Hpos P103; lia]).
+  apply rnd_id3; [rewrite E11; push_iz; reflexivity|].
+  assert (R0 : 0 <= tot - 2147483648 * pos < 2147483648).
+  { unfold pos. rewrite Qfloor_iz_div by lia. pose proof (Z.div_mod tot 2147483648 ltac:(lia)) as DM. pose proof (Z.mod_pos_bound tot 2147483648 ltac:(lia)) as MB. clear - DM MB. lia. }
+  exists (tot - 2147483648 * pos), 0. split; [lia|]. split; [clear - R0 P103; lia|]. change (iz (2 ^ 0)) with 1%Q. push_iz. field.
+Qed.
+End Rounded3.
